@@ -7,7 +7,7 @@ From Flocq Require Import Core.
 From Common Require Import CxxSem.
 From Flocq Require Import IEEE754.BinarySingleNaN IEEE754.Binary IEEE754.Bits.
 From C07 Require Import Model ModelR ModelB32 Sem ProofsInt ProofsRBase ProofsB32.
-From C07.gen Require Import GenMath SimdFacts.
+From C07.gen Require Import GenMath SimdFacts DistFacts.
 Import ListNotations.
 Local Open Scope R_scope.
 
@@ -304,3 +304,27 @@ Lemma gen_rsqrt_simd rcp_est rsqrt_est x :
 Proof.
   unfold rsqrt_simd_ast, rsqrt_simd. cbn [denote]. rewrite lit_f32, lit_fmhalf. reflexivity.
 Qed.
+
+(* ---- float distributions (utility/random.h): the trees extracted from the AST denote the model's
+   operation order.  Moving the 2^-32 scale into diff (seeded change C07-5), or pre-dividing the width in
+   uniform_real_distribution (the code before fix-1), breaks these. ----------------------------------- *)
+Lemma B2R_scale_bits : B2R 24 128 (b32_of_bits 796917760) = bpow radix2 (-32).
+Proof. vm_compute. lra. Qed.
+
+Lemma gen_dist_diff rn lower upper d k :
+  ddenote rn lower upper d k dist_diff_ast = rn (upper - lower).
+Proof. reflexivity. Qed.
+
+Lemma gen_dist_return rn lower upper diff k :
+  ddenote rn lower upper diff k dist_return_ast
+  = rn (rn (rn (bpow radix2 (-32) * rn (IZR k)) * diff) + lower).
+Proof. unfold dist_return_ast. cbn [ddenote]. rewrite B2R_scale_bits. reflexivity. Qed.
+
+Lemma gen_dist rn lower upper k :
+  ddenote rn lower upper (ddenote rn lower upper 0 k dist_diff_ast) k dist_return_ast
+  = pcg_float rn lower upper k.
+Proof. rewrite gen_dist_return, gen_dist_diff. reflexivity. Qed.
+
+Lemma gen_uniform rn l u k :
+  ddenote rn l u 0 k uniform_return_ast = uniform_real rn l u k.
+Proof. unfold uniform_return_ast, uniform_real. cbn [ddenote]. rewrite !Rminus_0_r. reflexivity. Qed.
